@@ -37,6 +37,7 @@ def opStartup (args : List String) (impl : String) : Verdict :=
     else if hc ∧ ¬ fracOk (kvLookup imp "hc_seq") then l1 label ("C15: health check answered " ++ kvLookup imp "hc_seq" ++ " sequential connections")
     else if hc ∧ ¬ fracOk (kvLookup imp "hc_par") then l1 label ("C15: health check answered " ++ kvLookup imp "hc_par" ++ " parallel connections")
     else if hc ∧ ¬ fracOk (kvLookup imp "hc_burst") then l1 label ("C15: health check answered " ++ kvLookup imp "hc_burst" ++ " connections that were pending at once")
+    else if hc ∧ kvLookup imp "hc_odd" ≠ "" ∧ ¬ fracOk (kvLookup imp "hc_odd") then l1 label ("C15: half-closing health-check probers answered / time service during silent connections: " ++ kvLookup imp "hc_odd")
     else if kvLookup imp "udp_after" ≠ "1" then l1 label "C15: time service stopped while health checks were served"
     else if ¬ fracOk (kvLookup imp "steady") then l1 label ("C15: steady traffic over several statistics periods: " ++ kvLookup imp "steady" ++ " requests answered")
     else if kvLookup imp "exit" ≠ "0" then l1 label ("C15,C19: exit status " ++ kvLookup imp "exit" ++ " after SIGTERM")
